@@ -1,4 +1,4 @@
-import Proofs.Machine.Run
+import Proofs.Machine.ColorOnly
 /-!
 C02 — `--color-only` is a line-for-line, text-preserving filter.
 
@@ -7,18 +7,21 @@ under `--color-only` (no decorations; side-by-side off is outside this model). T
 establish, for every handler that can claim a line in color-only mode, that it puts exactly one
 row on the timeline and which text that row carries; together with the C01 frame theorems (rows
 are never dropped, duplicated or reordered; the output is the timeline) this is the
-one-output-line-per-input-line contract. The composition over the whole handler chain
-(`color_only_one_row_per_line`) is stated at the end and checked end-to-end by the oracle of the
-check; it is not yet a single theorem (partial).
+one-output-line-per-input-line contract. The composition over the whole handler chain is the
+theorem `color_only_line_for_line` at the end (proved in `Proofs/Machine/ColorOnly.lean`): for
+every configuration in that normal form and every git input in which each `@@` line is followed
+by a line of its hunk, the rows written carry the input indices `0, 1, …, n-1` — one row per
+line, in order. The hypothesis is necessary (`dangling_hunk_header_dropped`): delta writes a hunk
+header when the next line of the hunk arrives, so a hunk header that is the last line of the input
+(or is followed by another header) is never written; git does not produce such input. Plain
+`diff -u` input is excluded (known finding `plain-diff-plusplus-body`).
 -/
 set_option linter.unusedSimpArgs false
 namespace C02
 open Machine Headers
 
 /-- what `set_options` forces under `--color-only`: the three decoration styles are `none` -/
-def NormalForm (cfg : Cfg) : Prop :=
-  cfg.colorOnly = true ∧ cfg.commitStyle.deco = .none ∧ cfg.fileStyle.deco = .none ∧
-  cfg.hunkHeaderStyle.deco = .none
+abbrev NormalForm (cfg : Cfg) : Prop := CONormal cfg
 
 theorem drawRows_none_one (st : ElemStyle) (k : RowKind) (t r a : Str) (src : Nat) (h : st.deco = .none) :
     (drawRows st k t r a src).length = 1 := by
@@ -57,7 +60,7 @@ theorem co_header_line_text (cfg : Cfg) (m : M) (l : L) (nf : NormalForm cfg) (h
   obtain ⟨_, _, hfd, _⟩ := nf
   have : (emit (flushMP m)).modeInfo = [] := by unfold flushMP; split <;> simp [emit, hmi]
   unfold drawRows
-  simp [hfd, this]
+  simp [hfd, this, hmi]
 
 /-- mode lines are not collected in color-only mode (they fall through to `emit_line_unchanged`) -/
 theorem co_mode_line_not_collected (cfg : Cfg) (m m' : M) (l : L) (b : Bool) (hco : cfg.colorOnly = true)
@@ -125,5 +128,45 @@ theorem co_special_constructs_off (cfg : Cfg) (m : M) (l : L) (hco : cfg.colorOn
   constructor
   · unfold handleMergeConflict; simp [hco]
   · unfold handleSubmoduleShort; simp [hco]
+
+-- the composition ---------------------------------------------------------------
+
+/-- **`--color-only` is line for line** (all handlers, all states, whole runs): one row per input
+line, in input order. `Followed false ls`: every `@@…` line is followed by a line that is empty or
+starts with ` `, `+`, `-` or `\` and is not a commit line, and the input does not end in one. -/
+theorem color_only_line_for_line {cfg : Cfg} (nf : NormalForm cfg) {d : L} {ls : List L} {m : M}
+    (hd : detectSource d.text = .gitDiff) (hg : ∀ l ∈ d :: ls, l.grep ≠ 2) (hf : Followed false (d :: ls))
+    (e : run cfg (d :: ls) = .ok m) :
+    m.out.map (·.src) = List.range (ls.length + 1) :=
+  run_color_only nf hd hg hf e
+
+/-- a plain input line for the examples (no escape sequences, ASCII) -/
+def mkL (s : String) : L :=
+  { raw := s.toList, text := s.toList, graphemes := s.toList.map (fun c => [c]),
+    commitRe := false, blame := false, grep := 0, submodule := none }
+
+def presetCfg : Cfg :=
+  { colorOnly := true, commitStyle := { isRaw := true }, fileStyle := { isRaw := true },
+    hunkHeaderStyle := { isRaw := true }, keepMarkers := true, tab := 0 }
+
+def sampleDiff : List L :=
+  ["diff --git a/x b/x", "index 1..2 100644", "--- a/x", "+++ b/x", "@@ -1,2 +1,2 @@ fn f()", " ctx", "-old", "+new",
+   "diff --git a/y b/y", "old mode 100644", "new mode 100755"].map mkL
+
+/-- the hypotheses are satisfiable, and the conclusion is what the model computes -/
+example : NormalForm presetCfg := ⟨rfl, rfl, rfl, rfl⟩
+example : detectSource (mkL "diff --git a/x b/x").text = .gitDiff := by decide
+example : Followed false sampleDiff := by
+  simp only [sampleDiff, List.map, Followed, isHH, mkL, HunkBody]
+  decide
+example : (match run presetCfg sampleDiff with
+    | .ok m => m.out.map (·.src) == List.range 11 && m.out.map (·.text) == sampleDiff.map (·.raw)
+    | .error _ => false) = true := by decide
+
+/-- the hypothesis `Followed` is needed: a hunk header that is the last line is never written -/
+theorem dangling_hunk_header_dropped :
+    (match run presetCfg (["diff --git a/x b/x", "--- a/x", "+++ b/x", "@@ -1 +1 @@"].map mkL) with
+     | .ok m => m.out.map (·.src)
+     | .error _ => []) = [0, 1, 2] := by decide
 
 end C02
